@@ -495,52 +495,85 @@ class RemoteWorker(Worker, metaclass=RemoteWorkerMeta):
             self._remote_side = True
             self._is_backend = False
 
-            logger.debug('Client data socket is: {}', self._socket.getpeername())
-            logger.debug('Creating a control socket for this connection...')
-            self._ctrl_sock = socket.socket(socket.AF_INET, socket.SOCK_STREAM)
-            self._ctrl_sock.bind((self._socket.getsockname()[0], 0))
-            self._ctrl_sock.listen()
-            logger.debug('Control socket listening at {}', self._ctrl_sock.getsockname())
+            # injected by the server / context process (must not travel to the backend)
+            register = self.__dict__.pop('_register_remote_child', None)
+            try:
+                logger.debug('Client data socket is: {}', self._socket.getpeername())
+                logger.debug('Creating a control socket for this connection...')
+                self._ctrl_sock = socket.socket(socket.AF_INET, socket.SOCK_STREAM)
+                self._ctrl_sock.bind((self._socket.getsockname()[0], 0))
+                self._ctrl_sock.listen()
+                logger.debug('Control socket listening at {}', self._ctrl_sock.getsockname())
 
-            logger.debug('Notifying the parent about newly created control socket...')
-            send_msg(self._socket, self._ctrl_sock.getsockname(), comment='control socket addr')
+                logger.debug('Notifying the parent about newly created control socket...')
+                send_msg(self._socket, self._ctrl_sock.getsockname(), comment='control socket addr')
 
-            incoming = self._ctrl_sock
-            logger.debug('Waiting for a connect to the control socket from the parent')
-            self._ctrl_sock, ctrl_peer = incoming.accept()
-            set_keepalive(self._ctrl_sock, True)
-            logger.details('Control sockets connected: {} <==> {}', self._ctrl_sock.getsockname(), ctrl_peer)
-            logger.debug('Closing listening socket')
-            incoming.close()
+                incoming = self._ctrl_sock
+                logger.debug('Waiting for a connect to the control socket from the parent')
+                self._ctrl_sock, ctrl_peer = incoming.accept()
+                set_keepalive(self._ctrl_sock, True)
+                logger.details('Control sockets connected: {} <==> {}', self._ctrl_sock.getsockname(), ctrl_peer)
+                logger.debug('Closing listening socket')
+                incoming.close()
 
-            logger.debug('Spinning up a backend child process...')
-            self._comms = Pipe()
-            self._ctrl_comms = Pipe()
+                logger.debug('Spinning up a backend child process...')
+                self._comms = Pipe()
+                self._ctrl_comms = Pipe()
 
-            # we need to be careful not to send a control socket here (see __getstate__)
-            self._child = mp.get_context('spawn').Process(target=self._run_backend, name=f'{self.name}')
-            self._child.start()
-            self._dead = False
+                # we need to be careful not to send a control socket here (see __getstate__)
+                self._child = mp.get_context('spawn').Process(target=self._run_backend, name=f'{self.name}')
+                self._dead = False
+                if register is not None:
+                    # from here on whoever has to stop us (also the server's SIGTERM handler) knows about this worker
+                    register(self)
+                self._child.start()
+                self._pid = self._child.pid
 
-            # Clean up things which are only needed in the backend
-            self._payload = None
+                # Clean up things which are only needed in the backend
+                self._payload = None
 
-            self._startup_sync = threading.Event()
-            self._ctrl_thread_rem = threading.Thread(target=self._ctrl_fn_remote, name=f'{self._name} (remote control thread)')
-            self._ctrl_thread_rem.start()
-            self._startup_sync.wait()
+                self._startup_sync = threading.Event()
+                self._ctrl_thread_rem = threading.Thread(target=self._ctrl_fn_remote, name=f'{self._name} (remote control thread)')
+                self._ctrl_thread_rem.start()
+                self._startup_sync.wait()
 
-            # Receiving runtime info is a signal for us that everything is ok
-            runtime_info = self._comms.parent_end.recv()
-            self._host, self._pid, self._tid, self._ident = runtime_info
-            send_msg(self._ctrl_sock, runtime_info, comment='ctrl: runtime info')
-            self._comms.parent_end.send(True)
-            self._comms.parent_end.close()
+                # Receiving runtime info is a signal for us that everything is ok
+                runtime_info = self._comms.parent_end.recv()
+                self._host, self._pid, self._tid, self._ident = runtime_info
+                send_msg(self._ctrl_sock, runtime_info, comment='ctrl: runtime info')
+                self._comms.parent_end.send(True)
+                self._comms.parent_end.close()
+            except BaseException:
+                # the handshake failed or the server is being stopped while this worker is only half-started:
+                # nobody else knows about the backend process yet, so it has to be stopped here
+                self._abort_remote_startup()
+                raise
         elif self._remote_side:
             assert self._remote_side
             assert not self._is_backend
         else:
             return
+
+    # Remote-side, server process: undo a start-up which did not complete
+    def _abort_remote_startup(self):
+        child = self.__dict__.get('_child')
+        if child is not None:
+            try:
+                if child.is_alive():
+                    child.terminate()
+                child.join(1)
+                if child.is_alive():
+                    child.kill()
+                    child.join(1)
+            except Exception:
+                logger.exception('Error occurred while stopping a half-started backend')
+        for name in ('_ctrl_sock', '_socket'):
+            sock = self.__dict__.get(name)
+            if sock is not None:
+                try:
+                    sock.close()
+                except OSError:
+                    pass
 
     # Remote-side, child process' main (working) thread
     def _run_backend(self):
